@@ -14,6 +14,10 @@ type TypeConverter struct {
 	imports      map[string]string // package path -> local name
 	usedNames    map[string]string // local name -> package path (for collision detection)
 	nameCounters map[string]int    // base name -> counter for generating unique names
+	// qualifiers holds the package identifiers created by this converter itself.
+	// They already carry their final name and must not be resolved a second time
+	// through the import names of a source file.
+	qualifiers map[*ast.Ident]bool
 }
 
 // NewTypeConverter creates a new TypeConverter for the given package.
@@ -23,7 +27,18 @@ func NewTypeConverter(currentPkg *types.Package) *TypeConverter {
 		imports:      make(map[string]string),
 		usedNames:    make(map[string]string),
 		nameCounters: make(map[string]int),
+		qualifiers:   make(map[*ast.Ident]bool),
 	}
+}
+
+// qualifierIdent returns a new package identifier with the given (final) name.
+func (tc *TypeConverter) qualifierIdent(name string) *ast.Ident {
+	ident := ast.NewIdent(name)
+	if tc.qualifiers == nil {
+		tc.qualifiers = make(map[*ast.Ident]bool)
+	}
+	tc.qualifiers[ident] = true
+	return ident
 }
 
 // Imports returns the collected import specifications needed for the generated code.
@@ -98,6 +113,10 @@ func (tc *TypeConverter) CollectExprImports(expr ast.Expr, sourceImports map[str
 		if !ok {
 			return true
 		}
+		// Qualifiers generated from type information are already final
+		if tc.qualifiers[ident] {
+			return true
+		}
 		// Look up the package name in source imports
 		pkgName := ident.Name
 		if importPath, exists := sourceImports[pkgName]; exists {
@@ -158,7 +177,7 @@ func (tc *TypeConverter) TypeToExpr(t types.Type) ast.Expr {
 			pkgName := obj.Pkg().Name()
 			actualName := tc.AddImport(pkgPath, pkgName)
 			return &ast.SelectorExpr{
-				X:   ast.NewIdent(actualName),
+				X:   tc.qualifierIdent(actualName),
 				Sel: ast.NewIdent(obj.Name()),
 			}
 		}
